@@ -197,7 +197,7 @@ impl<'a> Command<'a> {
 
             CommandName::Print => {
                 expected_args = 1;
-                let location = iter.next_location("location", expected_args)?;
+                let location = iter.next_location_or_default("location")?;
                 Self::Print { location }
             }
             CommandName::Move => {
